@@ -62,4 +62,37 @@ CHECKS = {
             dict(test="TestC09Lib", unit="lib", kind="rapid", checks=(2400, 60000), shards=(8, 16)),
         ],
     ),
+    "C07": dict(
+        level="exploration",
+        technique="property-based testing (rapid): generated trees -> image by 3 routes -> independent ECMA-119/Joliet reader -> exact comparison with the source tree",
+        rule="trees generated by shape (deep to 8 levels / flat / empty root / ordinary / with one wide directory of 30..300 entries), portable names distinct after "
+             "upper-casing, file sizes from the boundary set with a bias to empty files, both modes (PS3 with a generated well-formed PARAM.SFO), directory order "
+             "permuted by a seeded wrapper; image obtained through the library view, over the network (***DVD***/***PS3*** + critical reads) or from make-iso, and, "
+             "for synthetic files of 4 GiB-2 KiB..9 GiB, through a PRF-backed read-only filesystem; decoded by the harness's own reader; in both hierarchies the sets of "
+             "directories and files must equal the source's and every file's recorded length and bytes must equal the source (in full up to 64 MiB, at all extent "
+             "boundaries +-4 KiB and both ends for giants). non-trivial = empty file adjacent to a non-empty one, or a size not a multiple of 2048, or a directory "
+             "with > 40 entries, or a file > 4 GiB; distinct by (route, mode, order seed, tree shape)",
+        assumptions=["the reader in harness/isoread is written from ECMA-119/Joliet and anchored on the repository's third-party testimg.iso",
+                     "names outside the portable class and siblings colliding after upper-casing belong to C08 and are not generated here"],
+        units=[
+            dict(test="TestC07Trees", unit="trees", kind="rapid", checks=(1200, 24000), shards=(8, 16), bin=True),
+            dict(test="TestC07Giant", unit="giant", kind="rapid", checks=(64, 1600), shards=(4, 16)),
+        ],
+    ),
+    "C08": dict(
+        level="exploration",
+        technique="property-based testing (rapid): generated trees incl. hostile names -> image -> strict validator written from ECMA-119/Joliet (DESIGN Appendix D)",
+        rule="the C07 tree space plus long names (64..255 bytes), non-ASCII names, names with spaces/punctuation, siblings colliding after upper-casing or after "
+             "character mapping, directories with up to 300 entries (records spill over sectors), (thorough) > 1000 directories, PS3 PARAM.SFO with 0..8 extra keys in any "
+             "order; only images whose creation succeeds are judged; the validator checks exactly the invariants the property lists (size = announced = space size, "
+             "descriptors, both-endian fields, record length/straddle, ./../child links, L=M path tables complete and pointing right, extents inside/disjoint, zero "
+             "padding, PS3 sectors 0/1). non-trivial = directory records exceed one sector, or a name >= 64 characters, or non-ASCII, or > 100 directories, or colliding "
+             "names; distinct by (route, mode, order seed, tree shape)",
+        assumptions=["the validator's clauses are those of DESIGN Appendix D, each with a negative self-test (TestIsoreadNegative)",
+                     "ECMA-119 requirements the property does not name (;1 suffix, record sort order, d-character sets) are not checked"],
+        units=[
+            dict(test="TestC08Valid", unit="valid", kind="rapid", checks=(1600, 32000), shards=(8, 16), bin=True),
+            dict(test="TestC08Negative", unit="negative", kind="enum", shards=(1, 1)),
+        ],
+    ),
 }
